@@ -153,3 +153,23 @@ fn c05_peer_id_order_is_lexicographic() {
     assert!((PeerId(a) < PeerId(b)) == lt);
     assert!((PeerId(a) == PeerId(b)) == !decided);
 }
+
+/// C09: the contract of quinn's VarInt that mirsym's `transport_limits_saturate` relies on, checked on the real (vendored) quinn-proto code:
+/// try_from(n) = Ok(n) iff n < 2^62; MAX = 2^62 - 1; Default = 0; the saturating idiom of QuicConfig::transport_config yields min(n, 2^62-1).
+#[kani::proof]
+fn c09_varint_contract() {
+    use quinn::VarInt;
+    let n: u64 = kani::any();
+    let r = VarInt::try_from(n);
+    kani::cover!(r.is_ok(), "representable value reachable");
+    kani::cover!(r.is_err(), "out-of-range value reachable");
+    assert!(r.is_ok() == (n < (1u64 << 62)), "try_from is Ok exactly below 2^62");
+    if let Ok(v) = r {
+        assert!(v.into_inner() == n, "Ok carries the value itself");
+    }
+    assert!(VarInt::MAX.into_inner() == (1u64 << 62) - 1, "MAX = 2^62 - 1");
+    assert!(VarInt::default().into_inner() == 0, "Default = 0");
+    let sat = VarInt::try_from(n).unwrap_or(VarInt::MAX).into_inner();
+    let want = if n < (1u64 << 62) { n } else { (1u64 << 62) - 1 };
+    assert!(sat == want, "saturating conversion = min(n, 2^62-1)");
+}
